@@ -680,6 +680,25 @@ def shard_parseinfo(col, shard_i, ngrammars, ninputs):
             t = G.join_lexemes(rng, lex, gaps=tuple(gaps))
             t = rng.choice(['', '', ' ', '\n'] + gaps[-2:]) + t + rng.choice(['', '\n', '\r\n', ' \n', '\r'] + gaps[-1:])
             cases.append(R.Case(g, t[:60], None, E.Settings(parseinfo=True)))
+    # rules that hand on the AST of another rule (lone call, override, the SAME rule recursively) and a rule used in a lookahead and
+    # then for the real match at the same offset: the memo cache serves one object to both, each must carry its own record
+    for _ in range(max(2, ngrammars // 3)):
+        h = rng.choice([
+            ('choice', [('seq', [('tok', '('), ('over', False, ('call', 'h')), ('tok', ')')]), ('named', False, 'v', ('pat', r'[a-z]+'))]),
+            ('call', 'k'),
+            ('seq', [('over', False, ('call', 'k')), ('opt', ('tok', '!'))]),
+        ])
+        start = rng.choice([
+            ('choice', [('seq', [('call', 'h'), ('tok', '!'), 'eof']), ('seq', [('tok', '('), ('named', False, 'inner', ('call', 'h')), ('tok', ')'), 'eof']), ('call', 'h')]),
+            ('choice', [('seq', [('look', False, ('seq', [('call', 'h'), ('tok', '=')])), ('named', False, 'lhs', ('call', 'h')), ('tok', '='), ('named', False, 'rhs', ('call', 'h'))]),
+                        ('named', False, 'call', ('call', 'h'))]),
+            ('seq', [('look', True, ('seq', [('call', 'h'), ('tok', '?')])), ('rep', True, None, False, ('call', 'h'))]),
+        ])
+        g = {'rules': [('start', [], start), ('h', ['nomemo'] if rng.random() < 0.2 else [], h), ('k', [], ('named', False, 'v', ('pat', r'[a-z]+')))],
+             'directives': {}, 'keywords': []}
+        for t in ['(x)', '(x)!', '((x))', 'x', 'x = y', 'x=y', ' x  =  y ', 'x y z', '(x', 'x ?', 'x!', '\n(x)\n']:
+            cases.append(R.Case(g, t, None, E.Settings(parseinfo=True)))
+            cases.append(R.Case(g, t, None, E.Settings(parseinfo=True, memoization=False)))
     results = []
     for off in range(0, len(cases), 400):
         results += R.run_cases(mr, cases[off:off + 400])
